@@ -114,6 +114,16 @@ pub fn one<S: Src, const P: u8, const L: usize, const NT: usize, const NV: usize
             cov!(s, P, C04, n >= 16, "proc: response probed");
         }
     }
+    // ---------------------------------------------------------------- C05: the processor's responses carry the same transport header
+    if P == C05 {
+        if let Some(n) = answered {
+            chk!(s, P, C05, n >= 13 && out[4] == 0x01, "process response: reserved bits zero, header version 1");
+            chk!(s, P, C05, out[5] == b[6] && out[6] == cfg.addr, "process response: destination EID = the requester's source EID, source EID = own address");
+            chk!(s, P, C05, out[7] & 0xF0 == 0xC0, "process response: start-of-message 1, end-of-message 1, packet sequence 0");
+            chk!(s, P, C05, out[8] == 0x00, "process response: integrity-check bit clear, message type control");
+            cov!(s, P, C05, (b[7] & 0x30) != 0 && (b[7] & 0x07) != 0, "proc: request with a non-zero packet sequence and tag answered");
+        }
+    }
     // ---------------------------------------------------------------- C07: responses written by the processor are encoded responses too
     if P == C07 {
         if let Some(n) = answered {
